@@ -12,8 +12,8 @@ Import ListNotations. Open Scope N_scope.
 Definition res_of (x : option lst) := match x with Some s => (1, l_out s, l_errs s) | None => (0, [], []) end.
 (* run with exactly the fuel the termination theorem promises to suffice; report whether the observed graph
    meets the hypothesis of the once-per-directory theorem *)
-Definition run_g (g : fsgraph) (mx : N) (dfs : bool) (rp canon : str) (ino : N) :=
-  (res_of (lwalk g 0 mx dfs 0 (fuel_bound g) rp canon ino), if wf_graph g then 1 else 0).
+Definition run_g (g : fsgraph) (mn mx : N) (dfs : bool) (rp canon : str) (ino : N) :=
+  (res_of (lwalk g mn mx dfs 0 (fuel_bound g) rp canon ino), if wf_graph g then 1 else 0).
 """
 
 
@@ -22,8 +22,8 @@ COQ_HEADER_FB = """From Coq Require Import List NArith Bool.
 From FS Require Import lib.Str model.Walk model.WalkLinks.
 Import ListNotations. Open Scope N_scope.
 Definition res_of (x : option lst) := match x with Some s => (1, l_out s, l_errs s) | None => (0, [], []) end.
-Definition run_g (g : fsgraph) (mx : N) (dfs : bool) (rp canon : str) (ino : N) :=
-  (res_of (lwalk g 0 mx dfs 0 (S (S (fold_right (fun x a => (List.length (snd (snd x)) + S a)%nat) O g))) rp canon ino), 1).
+Definition run_g (g : fsgraph) (mn mx : N) (dfs : bool) (rp canon : str) (ino : N) :=
+  (res_of (lwalk g mn mx dfs 0 (S (S (fold_right (fun x a => (List.length (snd (snd x)) + S a)%nat) O g))) rp canon ino), 1).
 """
 
 
@@ -31,11 +31,12 @@ def gen_link_tree(ctx, idx):
     """A small tree under base/r plus an outside directory base/out, decorated with links of every kind."""
     rng = ctx.rng
     base = os.path.join(ctx.scratch, "s%d" % idx)
-    os.makedirs(os.path.join(base, "r"))
+    rootrel = rng.choice(["r", "r", "w/deep/r"])          # sometimes the root lies deeper than the outside directory links lead to
+    os.makedirs(os.path.join(base, rootrel))
     os.makedirs(os.path.join(base, "out", "deep"))
     for f in ("out/o1.txt", "out/deep/o2.txt"):
         open(os.path.join(base, f), "w").close()
-    root = os.path.join(base, "r")
+    root = os.path.join(base, rootrel)
     fstree.build(root, fstree.gen_tree(rng, max_entries=rng.choice([5, 10, 18]), max_depth=4, kinds=("file", "dir"), adversarial=0.05, p_dir=0.5))
     dirs = [root] + [os.path.join(dp, d) for dp, ds, _ in os.walk(root) for d in ds]
     files = [os.path.join(dp, f) for dp, _, fs in os.walk(root) for f in fs]
@@ -153,8 +154,9 @@ def run(ctx):
         base, root = gen_link_tree(ctx, i)
         g, realdir = graph_of(root)
         for dfs in (False, True):
-            sp, cwd = rng.choice([("r", base), (".", root), (root, base), ("./r", base)])
-            jobs.append(dict(base=base, root=root, g=g, realdir=realdir, dfs=dfs, sp=sp, cwd=cwd, mx=rng.choice([0, 0, 0, 2, 3])))
+            rr = os.path.relpath(root, base)
+            sp, cwd = rng.choice([(rr, base), (".", root), (root, base), ("./" + rr, base)])
+            jobs.append(dict(base=base, root=root, g=g, realdir=realdir, dfs=dfs, sp=sp, cwd=cwd, mx=rng.choice([0, 0, 0, 2, 3]), mn=rng.choice([0, 0, 1, 1, 2])))
 
     # links between sibling directories that sit exactly at the edge of the depth window: a link at depth N is listed but not
     # followed under `maxdepth N`, while its target is a real directory the walk enters by its own path at a smaller depth
@@ -179,12 +181,14 @@ def run(ctx):
                 jobs.append(dict(base=base, root=root, g=g, realdir=realdir, dfs=dfs, sp=sp, cwd=cwd, mx=mx))
 
     def one(j):
-        opt = " symlinks" + (" maxdepth %d" % j["mx"] if j["mx"] else "") + (" dfs" if j["dfs"] else "")
+        opt = " symlinks" + (" mindepth %d" % j["mn"] if j.get("mn") else "") + (" maxdepth %d" % j["mx"] if j["mx"] else "") + (" dfs" if j["dfs"] else "")
         q = "path from %s%s into list" % (j["sp"], opt)
         r = ctx.impl.rows([q], cwd=j["cwd"])
         r["query"] = q
         r0 = ctx.impl.rows(["path from %s%s into list" % (j["sp"], " dfs" if j["dfs"] else "")], cwd=j["cwd"])
-        r["plain_window"] = ctx.impl.rows(["path from %s%s%s into list" % (j["sp"], " maxdepth %d" % j["mx"], " dfs" if j["dfs"] else "")], cwd=j["cwd"]) if j["mx"] else None
+        windowed = j["mx"] or j.get("mn", 0) > 1
+        r["plain_window"] = ctx.impl.rows(["path from %s%s%s%s into list" % (j["sp"], " mindepth %d" % j["mn"] if j.get("mn") else "", " maxdepth %d" % j["mx"] if j["mx"] else "",
+                                                                             " dfs" if j["dfs"] else "")], cwd=j["cwd"]) if windowed else None
         return r, r0
 
     res = pmap(one, jobs)
@@ -192,7 +196,7 @@ def run(ctx):
     for j in jobs:
         gt = graph_term(j["g"])
         rino = os.stat(j["root"]).st_ino
-        exprs.append("run_g %s %d %s %s %s %d" % (gt, j["mx"], gbool(j["dfs"]), gstr(j["sp"]), gstr(os.path.realpath(j["root"])), rino))
+        exprs.append("run_g %s %d %d %s %s %s %d" % (gt, j.get("mn", 0), j["mx"], gbool(j["dfs"]), gstr(j["sp"]), gstr(os.path.realpath(j["root"])), rino))
     from .common import CheckError
     try:
         mres = coq_eval(COQ_HEADER, exprs, ctx.scratch, tag="c18", shard=6, fallback_header=COQ_HEADER_FB)
@@ -218,7 +222,8 @@ def run(ctx):
         if sorted(rows0) != sorted(plain):
             ctx.violation("impl-violates-spec", "without `symlinks` the rows are not the plain listing", input=case, observed=rows0[:20], expected=plain[:20])
             continue
-        if j["mx"] == 0:
+        if j["mx"] == 0 and j.get("mn", 0) <= 1:
+            # (`mindepth 1` excludes nothing: every entry lies at depth >= 1, also behind a link that leads above the root)
             # every reachable real directory is traversed exactly once: each (real directory, name) pair appears once
             keys = []
             for p in rows:
@@ -247,7 +252,7 @@ def run(ctx):
             dup = [k for k, v in c.items() if v > 1][:5]
             missing = sorted(set(need) - set(keys))[:5]
             if dup or missing:
-                ctx.violation("impl-violates-spec", "with `symlinks maxdepth %d`: entries the plain search lists inside the window are missing (%s) or an entry is listed twice (%s)" % (j["mx"], missing, dup),
+                ctx.violation("impl-violates-spec", "with `symlinks` and the window mindepth %d maxdepth %d: entries the plain search lists inside the window are missing (%s) or an entry is listed twice (%s)" % (j.get("mn", 0), j["mx"], missing, dup),
                               input=case, observed=rows[:40], expected=pw[:40])
                 continue
         if mt is None:
@@ -274,7 +279,7 @@ def run(ctx):
             st["samples"].append({"argv": [r["query"]], "links": case["links"], "rows": rows})
     ctx.coverage.update(
         evaluations=len(jobs), distinct_nontrivial=len(st["distinct"]), traces_validated_against_impl=st["agreed"],
-        rule="random trees decorated with 1-4 symbolic links: absolute and relative targets, to files, to directories inside the root, outside it and above it, to ancestors (cycles), chains (inside the root, and through a second link outside it), mutual pairs, self-links, dangling x root spelled '.', relative, './x', absolute x bfs/dfs x maxdepth 0/2/3, plus rings of links between sibling directories that sit exactly at the edge of the depth window: the search terminates with status 0 and empty stderr; without `symlinks` the rows are the plain listing; with it every (reachable real directory, entry name) pair appears exactly once (under a depth window: every entry the plain search lists inside the window still appears, none twice); the exact row sequence equals model.WalkLinks.lwalk on the observed graph. non-trivial = a tree with at least one link",
+        rule="random trees decorated with 1-4 symbolic links: absolute and relative targets, to files, to directories inside the root, outside it and above it, to ancestors (cycles), chains (inside the root, and through a second link outside it), mutual pairs, self-links, dangling x root spelled '.', relative, './x', absolute x bfs/dfs x mindepth 0/1/2 x maxdepth 0/2/3 (the root sometimes deeper than the outside directory a link leads to), plus rings of links between sibling directories that sit exactly at the edge of the depth window: the search terminates with status 0 and empty stderr; without `symlinks` the rows are the plain listing; with it every (reachable real directory, entry name) pair appears exactly once (under a depth window: every entry the plain search lists inside the window still appears, none twice); the exact row sequence equals model.WalkLinks.lwalk on the observed graph. non-trivial = a tree with at least one link",
         samples=st["samples"], distribution=dict(st["hist"]))
     return ctx.finish(trusted=["canonicalize / read_link / stat are the kernel's; the observer (os.scandir, os.readlink, os.path.realpath, os.stat) supplies the graph",
                                "the depth window of entries behind a followed link is computed by the source from canonical paths (saturating); the documentation does not define it, the model reproduces it"])
